@@ -25,7 +25,9 @@ def build(tier: str) -> List[Cond]:
                                       module="vf.h.c08", func="o_call", shape=dict(target=name, seq=seq, fixed={}), sym=[("labile", "bool")], pre=[],
                                       timeout=t, functions=[name], bounds="the function takes no annotation: its dictionary/list arguments are one representative set"))
                 continue
-            variants = [("A", GROUP_A, {**{f: (i % 2 == 0) for i, f in enumerate(GROUP_B)}, "internal": True, "adducts": False}),
+            # "bare": nothing but residues (has_mods() is False: several functions take a shortcut there), one residue modification symbolic
+            variants = [("bare", ["internal"], {f: False for f in GROUP_A + GROUP_B + ["adducts"]}),
+                        ("A", GROUP_A, {**{f: (i % 2 == 0) for i, f in enumerate(GROUP_B)}, "internal": True, "adducts": False}),
                         ("B", GROUP_B, {**{f: True for f in GROUP_A}, "internal": True, "adducts": True})]
             if tier == "thorough":
                 variants += [("A0", GROUP_A + ["internal"], {**{f: False for f in GROUP_B}, "adducts": False}),
